@@ -34,7 +34,7 @@ ASSUMPTIONS = ["the table of zone-less wall-clock interpretations above is the c
 WORKER_ENV = {"TZ": "Asia/Kathmandu"}
 TZS = ["UTC", "+05:30", "America/New_York", "Europe/London", "local"]
 ZONE_FMT = ["%Y-%m-%dT%H:%M:%S%z", "%Y-%m-%dT%H:%M:%S%:z", "%+", "%d/%b/%Y:%H:%M:%S %z", "%Y-%m-%d %H:%M:%S%.f %z",
-            "%a, %d %b %Y %H:%M:%S %z"]
+            "%a, %d %b %Y %H:%M:%S %z", "%Y-%m-%d %H:%M:%S %#z", "%Y-%m-%dT%H:%M:%S%#z"]
 NOZONE_FMT = ["%Y-%m-%d %H:%M:%S", "%Y-%m-%dT%H:%M:%S", "%d/%m/%Y %H:%M", "%Y%m%d%H%M%S", "%F %T%.f"]
 TZ_ARGS = ["UTC", "Europe/Paris", "Asia/Tokyo", "America/Los_Angeles", "+02:00"]
 EXEMPT_FNS = {"parse_syslog", "parse_common_log", "parse_apache_log", "parse_nginx_log", "get_timezone_name",
@@ -52,9 +52,9 @@ def render(ts, fmt, off_minutes):
     hh, mm = divmod(abs(off_minutes), 60)
     z, zc = "%s%02d%02d" % (sign, hh, mm), "%s%02d:%02d" % (sign, hh, mm)
     out = fmt
-    rep = {"%+": dt.strftime("%Y-%m-%dT%H:%M:%S") + zc, "%:z": zc, "%z": z, "%.f": ".%09d" % ts.nanos,
+    rep = {"%+": dt.strftime("%Y-%m-%dT%H:%M:%S") + zc, "%:z": zc, "%z": z, "%#z": z, "%.f": ".%09d" % ts.nanos,
            "%F": dt.strftime("%Y-%m-%d"), "%T": dt.strftime("%H:%M:%S")}
-    for k in ("%+", "%:z", "%z", "%.f", "%F", "%T"):
+    for k in ("%+", "%:z", "%#z", "%z", "%.f", "%F", "%T"):
         out = out.replace(k, rep[k])
     return dt.strftime(out)
 
